@@ -818,6 +818,57 @@ def case_cli(ctx, tool, part):
                               % (desc, F.number_of_variables(), ref.number_of_variables()))
 
 
+def case_after_interruption(ctx, cls, rseed, count):
+    """A family call is interrupted half-way (KeyboardInterrupt between two lines of the library, delivered through the
+    trace hook), the session catches it and goes on: the formulas built afterwards must be the documented ones."""
+    from .C05 import _InterruptAt
+    from cnfgen.graphs import dag_pyramid
+    g = gens()
+    K = S.formula_classes()[cls]
+    r = ctx.rng("c03interrupted", cls, rseed)
+    victims = [("PythagoreanTriples(300)", lambda: g.PythagoreanTriples(300, formula_class=K)),
+               ("PythagoreanTriples(60)", lambda: g.PythagoreanTriples(60, formula_class=K)),
+               ("VanDerWaerden(30,3,3)", lambda: g.VanDerWaerden(30, 3, 3, formula_class=K)),
+               ("RamseyNumber(3,3,7)", lambda: g.RamseyNumber(3, 3, 7, formula_class=K)),
+               ("OrderingPrinciple(7)", lambda: g.OrderingPrinciple(7, formula_class=K)),
+               ("PebblingFormula(pyramid 4)", lambda: g.PebblingFormula(dag_pyramid(4), formula_class=K)),
+               ("StoneFormula(pyramid 2, 3)", lambda: g.StoneFormula(dag_pyramid(2), 3, formula_class=K)),
+               ("CPLSFormula(3,4,4)", lambda: g.CPLSFormula(3, 4, 4, formula_class=K))]
+    for _ in range(count):
+        vname, fn = r.choice(victims)
+        with _InterruptAt(1 << 60) as dry:
+            try:
+                fn()
+            except Exception:       # noqa: BLE001
+                continue
+        if dry.n < 3:
+            continue
+        k = r.randint(1, dry.n)
+        fired = False
+        try:
+            with _InterruptAt(k):
+                fn()
+        except KeyboardInterrupt:
+            fired = True
+        except Exception:           # noqa: BLE001
+            pass
+        if not fired:
+            continue
+        ctx.count("family_calls_interrupted")
+        which = r.choice(["ptn", "ptn", "vdw", "op", "ram", "cpls"])
+        ctx.count("checks_after_an_interrupted_family_call")
+        if which == "ptn":
+            case_ptn(ctx, cls, sorted(r.sample(range(3, 40), 4)) + [r.choice((60, 100, 150))])
+        elif which == "vdw":
+            case_vdw(ctx, cls, r.randint(4, 8), 2, [[3, 3], [2, 3], [3, 4]])
+        elif which == "op":
+            case_op(ctx, cls, r.randint(2, 4))
+        elif which == "ram":
+            case_ram(ctx, cls, r.randint(3, 5))
+        else:
+            case_cpls(ctx, cls, [(2, 2, 2), (3, 2, 4)])
+
+
 def case_large(ctx, cls):
     g = gens()
     # ordering principle 12, all variants
@@ -978,6 +1029,8 @@ def workload(tier, seed):
                 for ch in chunks(lens3, 9):
                     yield "vdw", {"cls": cls, "N": N, "ncol": 3, "lengths_list": ch}
         yield "ptn", {"cls": cls, "Ns": list(range(0, 19))}
+        for i in range(2 if quick else 24):
+            yield "after_interruption", {"cls": cls, "rseed": seed * 100 + i, "count": 10}
         if not quick:
             yield "ptn", {"cls": cls, "Ns": [20, 21, 22]}
         yield "large", {"cls": cls}
